@@ -128,9 +128,9 @@ func (hw *httpWorld) tunnelProbe(addr, ip string, t *httpTunnel) {
 	defer conn.Close()
 	var req string
 	if t.connect {
-		req = fmt.Sprintf("CONNECT %s HTTP/1.1\r\nHost: a.example.test\r\nX-Tunnel: %s\r\n\r\n", t.target, t.id)
+		req = fmt.Sprintf("CONNECT %s HTTP/1.1\r\nHost: a.example.test\r\n%sX-Tunnel: %s\r\n\r\n", t.target, hw.credLine(), t.id)
 	} else {
-		req = fmt.Sprintf("GET /chat/%s HTTP/1.1\r\nHost: a.example.test\r\nUpgrade: websocket\r\nConnection: Upgrade\r\nSec-WebSocket-Key: dGhlIHNhbXBsZSBub25jZQ==\r\nSec-WebSocket-Version: 13\r\nX-Tunnel: %s\r\n\r\n", t.id, t.id)
+		req = fmt.Sprintf("GET /chat/%s HTTP/1.1\r\nHost: a.example.test\r\nUpgrade: websocket\r\nConnection: Upgrade\r\nSec-WebSocket-Key: dGhlIHNhbXBsZSBub25jZQ==\r\nSec-WebSocket-Version: 13\r\n%sX-Tunnel: %s\r\n\r\n", t.id, hw.credLine(), t.id)
 	}
 	io.WriteString(conn, req)
 	conn.SetReadDeadline(time.Now().Add(2 * time.Minute))
